@@ -37,7 +37,7 @@ RouteList == <<
     Rt("nsa", "rb", 1, S("y"), I(1), B(TRUE),  S("x")),
     Rt("nsa", "rb", 2, S("x"), I(2), B(TRUE),  Null),
     Rt("nsa", "rc", 1, S("y"), I(2), B(TRUE),  S("y")),
-    Rt("nsb", "rd", 1, S("x"), I(1), B(FALSE), S("x")),
+    Rt("nsb", "ra", 1, S("x"), I(1), B(FALSE), S("x")),       \* the same name and version as a route of nsa
     Rt("nsb", "re", 1, S("y"), I(1), B(FALSE), Null),
     Rt("nsb", "rf", 1, S("x"), I(2), B(FALSE), S("y")),
     Rt("nsc", "rg", 1, S("y"), I(2), B(FALSE), Null) >>
